@@ -4,6 +4,7 @@ from collections import Counter
 from ..backtest import Monitor
 
 LIMITS = {"PLACE": 200, "CANCEL": 60, "UPDATE": 60, "REPLACE": 60}
+BETDAQ_LIMITS = {"PLACE": 10, "CANCEL": 10, "UPDATE": 50, "REPLACE": 0}
 
 
 def ctx_snapshot(strategy, lookup):
@@ -150,7 +151,7 @@ class RequestMonitor(Monitor):
         self.unassigned.append(pkg)
         kind = pkg.package_type.name
         n = len(pkg._orders)
-        lim = LIMITS[kind]
+        lim = (BETDAQ_LIMITS if pkg.EXCHANGE is not None and pkg.EXCHANGE.name == "BETDAQ" else LIMITS)[kind]
         if n > lim:
             self.violate(self.P, "C02.delivery", "package-exceeds-per-call-limit:%s" % kind, size=n, limit=lim)
         if n >= lim:
